@@ -107,7 +107,7 @@ func genC05(thorough bool) func(t *rapid.T) c05Scenario {
 		sc.Seed = rapid.Uint32().Draw(t, "seed")
 		sc.CT = rapid.SampledFrom([]string{"text/plain", "application/json; charset=utf-8", "image/png", "", "text/html", "application/octet-stream", "font/woff2"}).Draw(t, "ct")
 		sc.Status = rapid.SampledFrom([]int{200, 200, 200, 201, 203, 404, 410, 500}).Draw(t, "status")
-		sc.UpEnc = rapid.SampledFrom([]string{"", "", "gzip", "br", "lz4", "zst", "snz"}).Draw(t, "upEnc")
+		sc.UpEnc = rapid.SampledFrom([]string{"", "", "gzip", "gzip-multi", "br", "lz4", "zst", "snz"}).Draw(t, "upEnc")
 		for i := 0; i < 4; i++ {
 			sc.AEs = append(sc.AEs, rapid.SampledFrom(c05AEPool).Draw(t, "ae"))
 		}
